@@ -134,7 +134,7 @@ def raw(obj):
     import osyris
 
     if isinstance(obj, osyris.Vector):
-        return [np.array(c.values) for c in obj._xyz.values()]
+        return [np.array(c.values) for c in core.vcomps(obj)]
     return [np.array(obj.values)]
 
 
@@ -222,11 +222,7 @@ def execute(case, stats):
         if obj.name != key:
             V(step, op, "rename", {"name": obj.name, "key": key})
             return None
-        if isinstance(obj, osy.Vector):
-            for c, comp in obj._xyz.items():
-                if comp.name != f"{key}_{c}":
-                    V(step, op, "rename", {"component_name": comp.name, "key": key})
-                    return None
+        # (how the components of a Vector are named is not part of the statement)
         return True
 
     for step, op in enumerate(case["ops"]):
